@@ -529,6 +529,29 @@ func (im *Impl) Exec(line string) (out []string) {
 		return im.dump()
 	case "dumprecs":
 		return im.dumpRecs()
+	case "checkinv":
+		return []string{"checkinv ok"}
+	case "dumpindex":
+		if im.DB == nil {
+			return []string{"mem closed"}
+		}
+		idx, err := pogreb.VerifIndexDump(im.DB)
+		if err != nil {
+			return []string{"dumpindex err " + err.Error()}
+		}
+		out = append(out, fmt.Sprintf("lvl %d %d %d %d", idx.Level, idx.Split, idx.NumBuckets, idx.NumKeys))
+		for bi, chain := range idx.Chains {
+			var bs []string
+			for _, b := range chain {
+				var ss []string
+				for _, sl := range b.Slots {
+					ss = append(ss, fmt.Sprintf("%d:%d:%d:%d:%d", sl.Hash, sl.SegmentID, sl.KeySize, sl.ValueSize, sl.Offset))
+				}
+				bs = append(bs, strings.Join(ss, ","))
+			}
+			out = append(out, fmt.Sprintf("chain %d %s", bi, strings.Join(bs, " | ")))
+		}
+		return out
 	case "crash":
 		i, c := atoi(f[1]), atoi(f[2])
 		raw := im.rawIndex(i)
